@@ -5,7 +5,7 @@ EXTENDS PoolRun, Json
 
 Base == [n |-> 2, t |-> 2, shared |-> TRUE, ammo |-> 3, provider |-> "ok", aggregator |-> "ok", warm |-> "none",
          gunFail |-> -1, bindFail |-> -1, schedFail |-> -1, panicInst |-> -1, panicShot |-> -1,
-         closable |-> TRUE]
+         closable |-> TRUE, ek |-> "plain"]
 
 \* run shapes: how the run would end without a fault
 Shapes == <<
@@ -56,10 +56,12 @@ Plans2b == { [id |-> 2000 + f, pools |-> <<SmallPlan(f), SmallPlan(6)>>, cancel 
 Plans1NC == {pl \in Plans1 : ~pl.cancel}
 Plans1C == {pl \in Plans1 : pl.cancel}
 \* quick tier: every fault without user cancel on the schedule-end shape, the clean run on the other shape
-QuickPlans == {pl \in Plans1NC : pl.pools[1].shape = "sched-end" \/ pl.pools[1].fault \in {"none", "agg-drop-on-cancel", "prov-at-the-very-end"}}
+QuickFaults == {"none", "prov-before-first-ammo", "prov-at-the-very-end", "agg-at-once", "agg-drop-on-cancel", "warmup-fails",
+                "newgun-later", "bind-first", "sched-shared", "sched-later", "panic-later", "not-closable"}
+QuickPlans1 == {pl \in Plans1NC : (pl.pools[1].shape = "sched-end" /\ pl.pools[1].fault \in QuickFaults) \/ pl.pools[1].fault = "none"}
 \* thorough tier: every plan without cancel + user cancel at any step for these faults
-CancelFaults == {"none", "prov-mid-run", "prov-at-the-very-end", "agg-drop-on-cancel", "sched-shared"}
-ThoroughPlans == Plans1NC \cup {pl \in Plans1C : pl.pools[1].fault \in CancelFaults /\ pl.pools[1].shape = "out-of-ammo"}
+CancelFaults == {"none", "prov-at-the-very-end", "agg-drop-on-cancel", "sched-shared"}
+ThoroughPlans1 == Plans1NC \cup {pl \in Plans1C : pl.pools[1].fault \in CancelFaults /\ pl.pools[1].shape = "out-of-ammo"}
 \* liveness is checked on a representative subset (TLC's liveness checking is sequential)
 LiveFaults == {"none", "prov-at-the-very-end", "agg-drop-on-cancel", "sched-shared", "newgun-later", "bind-first",
                "warmup-fails", "panic-later", "prov-before-first-ammo"}
@@ -77,11 +79,39 @@ Plans2NC == {pl \in Plans2 : ~pl.cancel}
 \* the shared-schedule failure in the second, and both at once
 Plans2Q == {pl \in Plans2NC : pl.pools[1].fault = "agg-drop-on-cancel" \/ pl.pools[2].fault = "sched-shared"}
            \cup {pl \in Plans2b : pl.pools[1].fault = "sched-shared"}
-AllPlans == PlansSC \cup Plans1 \cup Plans2 \cup Plans2b
+(* ---- error values ------------------------------------------------------------------------ *)
+\* Which VALUE the failing component returns (see "error values" in PoolRun.tla).  Every catalogue plan
+\* above uses "plain"; the plans below repeat every error-carrying fault with the other kinds.
+ErrKindsAll == {"plain", "wrapped", "deadline", "canceled", "runctx"}
+KindSeq == <<"wrapped", "deadline", "canceled", "runctx">>
+ErrFaults == {f \in 1..NF : Faults[f].fault \notin {"none", "warmup-ok", "not-closable"}}
+LateFaults == {f \in 1..NF : Faults[f].fault \in {"prov-at-the-very-end", "agg-drop-on-cancel"}}
+\* "runctx" = the component returns the RUN context's own error late: only a component that ends on cancel can.
+\* A user cancel is combined only with kinds whose classification does not depend on WHEN the run ctx is done
+\* (the await hook is logged before IsCtxError is evaluated; a cancel in between would be a recorder artefact).
+KindOk(f, k, c) == /\ (KindSeq[k] = "runctx" => f \in LateFaults)
+                   /\ (c = 1 => KindSeq[k] \in {"wrapped", "deadline"} /\ f \in LateFaults)
+PlansE == { [id |-> 4000 + ((f - 1) * 4 + (k - 1)) * 2 + c + 1,
+             pools |-> <<[ek |-> KindSeq[k]] @@ PoolPlan(f, 1)>>, cancel |-> (c = 1)] :
+            f \in ErrFaults, k \in 1..4, c \in 0..1 } 
+PlansEK == {pl \in PlansE : LET f == CHOOSE g \in 1..NF : Faults[g].fault = pl.pools[1].fault
+                                 k == CHOOSE j \in 1..4 : KindSeq[j] = pl.pools[1].ek
+                             IN KindOk(f, k, IF pl.cancel THEN 1 ELSE 0)}
+\* exhaustive in the quick tier ("wrapped" has the state graph of "plain"): the late faults with every kind,
+\* a fault of every other component position with an own-context value
+QuickE == {pl \in PlansEK : ~pl.cancel /\ pl.pools[1].ek # "wrapped" /\
+             (pl.pools[1].fault \in {"prov-at-the-very-end", "agg-drop-on-cancel"} \/
+              (pl.pools[1].ek = "deadline" /\ pl.pools[1].fault = "agg-at-once") \/
+              (pl.pools[1].ek = "canceled" /\ pl.pools[1].fault = "bind-first"))}
+ThoroughE == {pl \in PlansEK : pl.pools[1].ek # "wrapped" /\ ~pl.cancel}
+LateDeadlinePlans == {pl \in PlansEK : ~pl.cancel /\ pl.pools[1].ek = "deadline" /\ pl.pools[1].fault \in {"prov-at-the-very-end", "agg-drop-on-cancel"}}
+AllPlans == PlansSC \cup PlansEK \cup Plans1 \cup Plans2 \cup Plans2b
 OnePlan == {pl \in Plans1 : pl.id = 1}
 \* negative controls need only the plans that trigger the defect
 SchedSharedPlans == {pl \in Plans1 : pl.pools[1].fault = "sched-shared"}
 LatePlans == {pl \in Plans1 : pl.pools[1].fault \in {"agg-drop-on-cancel", "prov-at-the-very-end"} /\ ~pl.cancel}
 PanicPlans == {pl \in Plans1 : pl.pools[1].fault \in {"panic-first", "panic-later"} /\ ~pl.cancel}
 NonePlans == {pl \in Plans1 : pl.pools[1].fault = "none"}
+QuickPlans == QuickPlans1 \cup QuickE
+ThoroughPlans == ThoroughPlans1 \cup ThoroughE
 =============================================================================
